@@ -35,6 +35,16 @@ class BufferCompleteError(Exception):
     pass
 
 
+class _SyntheticRequest:
+    # A request that was not received as a HTTP/2 HEADERS frame (the
+    # h2c upgrade request, a pushed request). It has the attributes
+    # of h2.events.RequestReceived that _create_stream reads, the h2
+    # event itself cannot be constructed by hand in all h2 versions.
+    def __init__(self, stream_id: int, headers: List[Tuple[bytes, bytes]]) -> None:
+        self.stream_id = stream_id
+        self.headers = headers
+
+
 class StreamBuffer:
     def __init__(self, event_class: Type[IOEvent]) -> None:
         self.buffer = bytearray()
@@ -135,9 +145,7 @@ class H2Protocol:
             self.connection.initiate_connection()
         await self._flush()
         if headers is not None:
-            event = h2.events.RequestReceived()
-            event.stream_id = 1
-            event.headers = headers
+            event = _SyntheticRequest(1, headers)
             await self._create_stream(event)
             await self.streams[event.stream_id].handle(EndBody(stream_id=event.stream_id))
         self.task_group.spawn(self.send_task)
@@ -315,7 +323,9 @@ class H2Protocol:
             self.priority.block(event.stream_id)
         await self.has_data.set()
 
-    async def _create_stream(self, request: h2.events.RequestReceived) -> None:
+    async def _create_stream(
+        self, request: Union[h2.events.RequestReceived, _SyntheticRequest]
+    ) -> None:
         for name, value in request.headers:
             if name == b":method":
                 method = value.decode("ascii").upper()
@@ -387,9 +397,7 @@ class H2Protocol:
             # push on a push promises request.
             pass
         else:
-            event = h2.events.RequestReceived()
-            event.stream_id = push_stream_id
-            event.headers = request_headers
+            event = _SyntheticRequest(push_stream_id, request_headers)
             await self._create_stream(event)
             await self.streams[event.stream_id].handle(EndBody(stream_id=event.stream_id))
             self.keep_alive_requests += 1
